@@ -91,7 +91,8 @@ pub fn run_c17(ctx: &mut Ctx, from: u64, to: u64) {
             kv.extend(extra);
             J::obj(kv)
         };
-        ctx.flag("files_without_char_or_type_ngram_section(only_no_panic_asserted)", spec.char_ngrams.is_empty() || spec.type_ngrams.is_empty());
+        ctx.flag("files_without_char_or_type_ngram_section(only_no_panic_asserted)", (spec.char_ngrams.is_empty() || spec.type_ngrams.is_empty()) && !spec.empty_tries_present);
+        ctx.flag("files_with_present_but_empty_ngram_trie", (spec.char_ngrams.is_empty() || spec.type_ngrams.is_empty()) && spec.empty_tries_present);
         ctx.flag("files_with_char_ids_above_32767", spec.char_map.len() > 32767);
         ctx.flag("files_with_word_of_255_or_more_chars", spec.words.iter().any(|w| w.0.len() >= 255));
         ctx.flag("files_with_type_byte_0x04", spec.type_ngrams.iter().any(|g| g.0.contains(&'\u{4}')));
@@ -106,7 +107,7 @@ pub fn run_c17(ctx: &mut Ctx, from: u64, to: u64) {
         ctx.count("dictionary_words_in_files", spec.words.len() as u64);
         let r = guard(|| -> Result<(), (String, J)> {
             let conv = convert(&bytes);
-            if spec.char_ngrams.is_empty() || spec.type_ngrams.is_empty() {
+            if (spec.char_ngrams.is_empty() || spec.type_ngrams.is_empty()) && !spec.empty_tries_present {
                 // a file without character or type n-gram section is reported as "no ... dictionary" by design;
                 // only "no panic" (and, if accepted, equality) is asserted for such files
                 if conv.is_err() {
